@@ -49,14 +49,15 @@ type c11event struct {
 }
 
 type c11worker struct {
-	g      int
-	events []c11event
-	errs   []string
-	errKey []string
-	pins   []dyn.Buf
-	cycles int
-	gets   int
-	reuse  int
+	g       int
+	events  []c11event
+	errs    []string
+	errKey  []string
+	pins    []dyn.Buf
+	cycles  int
+	appends int
+	gets    int
+	reuse   int
 }
 
 type c11cfg struct {
@@ -204,6 +205,7 @@ func c11Run(c *core.Ctx, cf c11cfg, caseID string, stream uint64) {
 			c.Violate(inst+"|"+w.errKey[i], caseID, e, d)
 		}
 		c.Obs("cycles", int64(w.cycles))
+		c.Obs("appends_of_one_held_buffer_to_another", int64(w.appends))
 		c.Obs("gets", int64(w.gets))
 	}
 	c.Eval(int64(len(all)))
@@ -380,6 +382,21 @@ func c11Worker(w *c11worker, pool dyn.Pool, t *dyn.TypeOps, cf c11cfg, r *core.R
 						break
 					}
 				}
+			}
+			// a holder of two buffers fills the first up to its capacity and
+			// appends (part of) it to the second, still empty of its own
+			// samples, before using the second: both stay separate buffers
+			if i > 0 && al.Channels*al.Capacity > 0 && al.Length < al.Capacity && r.Chance(1, 3) {
+				prev := held[i-1]
+				if p, msg := core.Guard(func() {
+					for prev.Len() < prev.Cap() {
+						prev.AppendSample(stamps[i-1])
+					}
+					b.Append(prev.Slice(0, al.Capacity-al.Length))
+				}); p {
+					fail("panic", fmt.Sprintf("goroutine %d cycle %d: filling one held buffer and appending it to another panicked: %s", w.g, cy, msg))
+				}
+				w.appends++
 			}
 			// stamp the whole capacity
 			n := (int64(w.g+1) << 20) | int64(cy&0xfffff)
